@@ -288,7 +288,7 @@ ChkApiRet(m, e, tr) ==
     \* (calls may run in different directions: the piece list as a whole is ordered only while they do not)
     \cup (IF tr.dense /\ e.op = "integrate" /\ Len(e.solT) >= 2
              /\ ~(\A k \in 1..(Len(e.solT) - 1) : k >= m.opPiece0 /\ k >= 1 => Beyond(m.opDir, e.solT[k], e.solT[k + 1]))
-          THEN {"C06.PiecesOrderedAlongTheRun", "C09.PiecesOrderedAlongTheRun"} ELSE {})
+          THEN {"C06.PiecesOrderedAlongTheRun", "C09.PiecesOrderedAlongTheRun", "C07.PiecesOrderedAlongTheRun"} ELSE {})
     \cup (IF e.solPub = tr.dense THEN {} ELSE {"C06.SolutionObjectIffDense"})
     \* the per-function view `events_dict` is the event list grouped by event function, in list order (sensor: exact comparison)
     \cup (IF e.evDictOk THEN {} ELSE {"C07.EventsDictAgreesWithEventList"})
